@@ -31,7 +31,7 @@ INL_DEVS = ["NoRestart", "DollarNewline", "CRLFUnit", "EOFNotDelim", "SeekOtherS
 EXPORT_ACTIONS = ["ADecide", "AName", "ANameRetry", "ACreate", "AHeader", "AInfo", "APalEntry", "ASeekLine", "AWriteLine",
                   "AWriteBlob", "AClose"]
 INLINE_ACTIONS = ["ADictTok", "AID", "AMRefill", "AMFind", "AMChar", "AMFinish", "AMEof", "AResume"]
-REALISABLE = {"Flate", "LZW", "A85", "AHx", "RL", "DCT"}
+REALISABLE = {"Flate", "LZW", "A85", "AHx", "RL", "DCT", "FlatePNG"}
 
 
 def devsets(dev):
@@ -48,10 +48,14 @@ def dkey(d):
 EXPORT_CONFIGS = {
     "quick": [("bmp-writer", "Geo5", "KindsBmp", '{<<>>, <<"Flate">>}', "OneImage", "EmptyDir"),
               ("decision", "Geo2x1", "KindsAll", "ChainsUpTo2", "OneImage", "EmptyDir"),
-              ("naming", "Geo1", "KindBw", "ChainsNaming", "NamesUpTo3", "Dirs")],
+              ("naming", "Geo1", "KindBw", "ChainsNaming", "NamesUpTo3", "Dirs"),
+              # images whose streams exercise what small ones cannot: a table-full LZW clear, RunLength runs / literals above 128
+              ("large", "GeoLargeQuick", "KindRgb", '{<<"LZW">>, <<"RL">>}', "OneImage", "EmptyDir")],
 }
 EXPORT_CONFIGS["thorough"] = EXPORT_CONFIGS["quick"] + [
-    ("bmp-writer-chains", "Geo3", "KindsBmp", '{<<"LZW">>, <<"A85", "Flate">>, <<"AHx">>, <<"RL">>, <<"Flate", "LZW">>}', "OneImage", "EmptyDir")]
+    ("bmp-writer-chains", "Geo3", "KindsBmp", '{<<"LZW">>, <<"A85", "Flate">>, <<"AHx">>, <<"RL">>, <<"Flate", "LZW">>, <<"FlatePNG">>}', "OneImage", "EmptyDir"),
+    ("large-chains", "GeoLarge", "KindsLarge", '{<<"LZW">>, <<"RL">>, <<"FlatePNG">>, <<"Flate">>, <<"A85", "LZW">>, <<"LZW", "FlatePNG">>}', "OneImage", "EmptyDir")]
+EXPORT_CONFIGS["thorough"] = [c for c in EXPORT_CONFIGS["thorough"] if c[0] != "large"]
 
 
 def classify_bmp(blob, want_rows, w, h, bits):
@@ -160,7 +164,7 @@ def sig(rec):
 
 
 def in_domain(im):
-    return im["pk"] in ("bw", "gray", "rgb") and all(f in ("Flate", "LZW", "A85", "AHx", "RL") or (f == "DCT" and q == len(im["filters"]) - 1)
+    return im["pk"] in ("bw", "gray", "rgb") and all(f in ("Flate", "LZW", "A85", "AHx", "RL", "FlatePNG") or (f == "DCT" and q == len(im["filters"]) - 1)
                                                     for q, f in enumerate(im["filters"]))
 
 
@@ -190,9 +194,7 @@ def check_arrival(pdf, imgs):
     for it, im in zip(got, imgs):
         if tuple(it.srcsize) != (im["w"], im["h"]) or it.name != im["name"]:
             raise MachineryError("realiser self-check: image %r arrives as %r %r" % (im, it.name, it.srcsize))
-        if all(f in ("Flate", "LZW", "A85", "AHx", "RL", "DCT") for f in im["filters"]) and "DCT" not in im["filters"][:-1]:
-            if it.stream.get_data() != R.image_data(im["pk"], im["w"], im["h"]):
-                raise MachineryError("realiser self-check: samples of %r do not survive the filter chain" % (im,))
+        # (whether the samples survive the filter chain is part of the property: judged on the exported file, not here)
 
 
 def direction_a_export(ck, dev):
